@@ -37,7 +37,7 @@ from xgi.exception import IDNotFound, XGIError
 from .. import dhg as MD
 from .. import hg as MH
 from .. import sc as MS
-from ..core import TRUSTED_COMMON, Infra, build_and_audit, canon, enc_attrs, enc_attrs_req, enc_id, enc_val, enc_val_req, finish, idkey, jhash, run_driver
+from ..core import TRUSTED_COMMON, Infra, build_and_audit, canon, unlisted_violations, enc_attrs, enc_attrs_req, enc_id, enc_val, enc_val_req, finish, idkey, jhash, run_driver
 from ..fn import approx_equal
 from ..sm import load_corpus, shrink
 from . import c01 as C01
@@ -229,7 +229,7 @@ def gen_params(rng):
     return {"k": rng.choice([0, 1, 1, 2, 3, -1]), "w": rng.choice(["w", "weight", "m"]), "d": rng.choice([0, 1, 2, 3]),
             "attr": rng.choice(MH.ATTR_KEYS), "missing": rng.choice([None, None, 0, 1, "r"]),
             "pos": rng.random() < 0.3, "kw": rng.random() < 0.5, "mo": rng.choice([2, 2, 3]), "numw": rng.random() < 0.65,
-            "fixsp": rng.random() < 0.5}
+            "fixsp": rng.random() < 0.5, "rot": rng.randrange(len(OTHER_N))}
 
 
 def numeric_weights(ops, w, rng):
@@ -312,6 +312,18 @@ EMULTI2 = {False: ["size", "order_d", "order"], True: ["tail_size", "head_order_
 # aggregates that the model evaluates too (the predicate covers every numeric held stat)
 NAGG = {False: ["degree", "degree_o", "and"], True: ["degree", "in_degree", "out_degree_o"]}
 EAGG = {False: ["size", "order_d"], True: ["size", "tail_size", "head_order_d"]}
+# the remaining statistics of the undirected views.  Their VALUES are other properties' subject (C09 / C14 / C15); what C06
+# says about them is what it says about every statistic: the formats of one stat agree and follow view order, a stat
+# object held across edits shows what a fresh one shows, a stat on a filtered view is the restriction of the stat.
+OTHER_N = ["clustering_coefficient", "local_clustering_coefficient", "two_node_clustering_coefficient",
+           "clique_eigenvector_centrality", "h_eigenvector_centrality", "z_eigenvector_centrality", "node_edge_centrality",
+           "katz_centrality", "local_simplicial_fraction", "local_edit_simpliciality", "local_face_edit_simpliciality"]
+OTHER_E = ["node_edge_centrality"]
+# random start vector of the eigensolver / the power iteration: two evaluations of the same stat on the same network differ
+# (h_eigenvector: up to 0.3; z_eigenvector: 0.25 vs 0.28 on a 4-node network; clique_eigenvector: the SIGN of the
+# eigenvector on a 2-node network) — C15 / C17's subject;
+# only keys and shapes are compared for these
+UNSTABLE = {"h_eigenvector_centrality", "clique_eigenvector_centrality", "z_eigenvector_centrality"}
 
 
 def nstat_names(directed):
@@ -377,6 +389,10 @@ class Held:
         self.nmulti2 = self.nv.multi([n2[0]] + [self.ns[k] for k in n2[1:]])
         self.emulti2 = self.ev.multi([e2[0]] + [self.es[k] for k in e2[1:]])
         self.filtered = {}        # "n"/"e" -> (ids, held filtered view, held stat on it), created when IDs exist
+        self.other = {} if directed else {"n": {nm: getattr(self.nv, nm) for nm in OTHER_N}, "e": {nm: getattr(self.ev, nm) for nm in OTHER_E}}
+        # `from_view(view)` with the default bunch ("all IDs"), held like the views themselves
+        self.nall = attempt(lambda: type(self.nv).from_view(self.nv))
+        self.eall = attempt(lambda: type(self.ev).from_view(self.ev))
 
     def held_filtered(self, ob, T):
         """filtered views (and a stat on each) held across mutations: while every ID they name is still present
@@ -705,6 +721,72 @@ def aggregates(ob, stat, ids, mo, field, label, central=True):
     return out
 
 
+def close(a, b, tol=1e-9):
+    """numeric stat values equal by the float rule; NaN (local simpliciality of a node without eligible edges) equals NaN"""
+    try:
+        fa, fb = float(a), float(b)
+    except Exception:  # noqa
+        return False
+    if math.isnan(fa) or math.isnan(fb):
+        return math.isnan(fa) and math.isnan(fb)
+    return abs(fa - fb) <= tol * max(1.0, abs(fb))
+
+
+def other_stat_forms(ob, hstat, fstat, view, ids, nm, field="other_stats"):
+    """one of the statistics whose values C06 does not define (clustering, centralities, simpliciality): `hstat` is the
+    object held since the empty network, `fstat` the same stat of a fresh view.  Where the stat is defined at all
+    (degenerate networks make several of them raise — not judged here): keys = view order, held = fresh, the formats
+    agree, the stat of a filtered view is the restriction.  An ID of the view without a value (KeyError naming it)
+    is a failure: the stat function did not cover its bunch."""
+    cmpv = nm not in UNSTABLE
+    ids = list(ids)
+
+    def call(f):
+        with warnings.catch_warnings():
+            warnings.simplefilter("ignore")
+            return attempt(f)
+
+    def uncovered(st, e):
+        try:
+            return st == "err:KeyError" and bool(e.args) and e.args[0] in set(ids)
+        except TypeError:
+            return False
+    sf, df = call(fstat.asdict)
+    sh, dh = call(hstat.asdict)
+    for st, d, who in ((sf, df, "a fresh view"), (sh, dh, "the held view")):
+        if uncovered(st, d):
+            ob.fail("IDStat.asdict", "stat-has-no-value-for-an-id-of-the-view", f"{nm} of {who} {ids}: KeyError {d}", field)
+            return
+    if sf != "ok" or sh != "ok":
+        if (sf == "ok") != (sh == "ok") and cmpv:
+            ob.fail("IDStat.asdict", "held-stat-differs-from-fresh", f"{nm}: held object {sh} {dh if sh != 'ok' else ''}, fresh object {sf} {df if sf != 'ok' else ''}"[:300], field)
+        return
+    for d, who in ((df, "a fresh view"), (dh, "the held view")):
+        if not isinstance(d, dict) or list(d) != ids:
+            ob.fail("IDStat.asdict", "keys-not-view-order", f"{nm} of {who}: keys {list(d) if isinstance(d, dict) else type(d).__name__} view {ids}", field)
+            return
+    if cmpv and not all(close(dh[i], df[i]) for i in ids):
+        ob.fail("IDStat.asdict", "held-stat-stale", f"{nm}: held object says {dh}, a fresh one {df}"[:400], field)
+        return
+    same = lambda vals: len(vals) == len(ids) and (not cmpv or all(close(v, dh[i]) for v, i in zip(vals, ids)))
+    st, l = call(hstat.aslist)
+    if st != "ok" or not isinstance(l, list) or not same(l):
+        ob.fail("IDStat.aslist", "differs-from-asdict", f"{nm}: aslist {st} {l!r} asdict {dh}"[:400], field)
+    st, a = call(hstat.asnumpy)
+    if st != "ok" or not isinstance(a, np.ndarray) or a.shape != (len(ids),) or not same(a.tolist()):
+        ob.fail("IDStat.asnumpy", "differs-from-aslist", f"{nm}: asnumpy {st} {a!r} asdict {dh}"[:400], field)
+    if not any(isinstance(i, tuple) for i in ids):
+        st, sr = call(hstat.aspandas)
+        if st != "ok" or not hasattr(sr, "index") or sr.index.tolist() != ids or not same(sr.tolist()):
+            ob.fail("IDStat.aspandas", "values-differ-from-asdict" if st == "ok" and hasattr(sr, "index") and sr.index.tolist() == ids else "index-not-view-order",
+                    f"{nm}: aspandas {st} {sr!r} asdict {dh}"[:400], field)
+    if len(ids) >= 2:
+        b = [ids[-1], ids[0]]
+        st, d = call(lambda: getattr(view(b), nm).asdict())
+        if uncovered(st, d) or st != "ok" or not isinstance(d, dict) or list(d) != [ids[0], ids[-1]] or (cmpv and not all(close(d[i], dh[i]) for i in d)):
+            ob.fail("IDStat.asdict", "stat-on-filtered-view-is-not-the-restriction", f"{nm} on view({b}): {st} {d!r}, on the full view {dh}"[:400], field)
+
+
 def table_obs(a, rows, ncols):
     """np.ndarray of a multi-stat vs the list of rows: (problem | None, observation)"""
     if not isinstance(a, np.ndarray):
@@ -947,6 +1029,25 @@ def observe(held, T, sp, prev_order=None, op=None, step_no=0):
                     ob.fail(f"{vn}.__iter__", "not-insertion-order", f"before {prev_order[key]} after {got}", key)
     guard(ob, "IDView.__iter__", "views", "nodes", views)
 
+    # ---- `from_view(view)` with the default bunch is a view of ALL current IDs: created now, and held from the start
+    def default_bunch():
+        for held_all, view, ids in ((held.nall, held.nv, T.nodes), (held.eall, held.ev, T.edges)):
+            vn = type(view).__name__
+            st, got = attempt(lambda: list(type(view).from_view(view)))
+            if st != "ok":
+                ob.fail("IDView.from_view", "default-bunch-raises", f"{vn}.from_view(view) without a bunch: {st}: {got}", "from_view_default")
+            elif sorted(map(repr, got)) != sorted(map(repr, ids)):
+                ob.fail("IDView.from_view", "default-bunch-wrong-ids", f"{vn}.from_view(view) lists {got}, current ids {ids}", "from_view_default")
+            elif got != ids:
+                ob.fail("IDView.from_view", "default-bunch-not-insertion-order", f"{vn}.from_view(view) lists {got}, insertion order {ids}", "from_view_default")
+            st0, hv = held_all
+            if st0 == "ok":
+                st, got = attempt(lambda: list(hv))
+                if st != "ok" or sorted(map(repr, got)) != sorted(map(repr, ids)):
+                    ob.fail("IDView.from_view", "default-bunch-view-stale",
+                            f"{vn}.from_view(view) created on the empty network lists {st} {got}, current ids {ids}", "from_view_default")
+    guard(ob, "IDView.from_view", "from-view-default-bunch", "from_view_default", default_bunch)
+
     # ---- the incidence as the HELD views hand it out (members / memberships and the directed variants)
     def accessors():
         reads = [("members", held.ev, lambda: held.ev.members(dtype=dict), T.mem), ("memberships", held.nv, held.nv.memberships, T.memb)]
@@ -1051,6 +1152,17 @@ def observe(held, T, sp, prev_order=None, op=None, step_no=0):
 
     guard(ob, "IDView.__call__", "held-filtered-views", "held_filtered", lambda: held.held_filtered(ob, T))
 
+    # ---- the other statistics (formats / liveness / restriction only): one node stat per 2nd step in rotation, on small states
+    def other_stats():
+        if directed or step_no % 2 or len(T.nodes) > 8 or len(T.edges) > 10:
+            return
+        r = step_no // 2 + P.get("rot", 0)       # the rotation starts at a different stat in every history
+        nm = OTHER_N[r % len(OTHER_N)]
+        other_stat_forms(ob, held.other["n"][nm], getattr(T.nv, nm), held.nv, T.nodes, nm)
+        if r % 3 == 0:
+            other_stat_forms(ob, held.other["e"][OTHER_E[0]], getattr(T.ev, OTHER_E[0]), held.ev, T.edges, OTHER_E[0])
+    guard(ob, "IDStat.asdict", "other-statistics", "other_stats", other_stats)
+
     # ---- multi
     kinds = lambda ks: [KIND.get(k, "num") for k in ks]
     n2, e2 = NMULTI2[directed], EMULTI2[directed]
@@ -1093,6 +1205,44 @@ def observe(held, T, sp, prev_order=None, op=None, step_no=0):
                 ob.fail(f"{vn}.from_view", "wrong-ids" if sorted(map(repr, got)) != sorted(map(repr, exp)) else "not-view-order",
                         f"bunch {bunch}: {got} vs {exp}", key)
             o[key] = [enc_id(i) for i in got]
+            # the other routes to the same filtered view and its incidence (predicate only: the functions are the ones
+            # the model evaluates for `from_view` / `neighbors` above).  (1) the constructor `NodeView(H, bunch)`
+            base, k_ = ("degree", "n") if key == "nview" else ("size", "e")
+            st, cv = attempt(lambda: type(view)(held.H, list(exp)))
+            st, cgot = attempt(lambda: list(cv)) if st == "ok" else (st, cv)
+            if st != "ok" or cgot != exp:
+                ob.fail(f"{vn}.__init__", "constructed-view-does-not-list-its-bunch", f"{vn}(H, {exp}) lists {st} {cgot}", key)
+            else:
+                st, d = attempt(lambda: getattr(cv, base).asdict())
+                want = {i: tstats[base][i] for i in exp}
+                if st != "ok" or d != want or list(d) != exp:
+                    ob.fail(f"{vn}.__init__", "stat-on-constructed-view-wrong", f"{vn}(H, {exp}).{base}.asdict() = {st} {d!r} vs {want}", key)
+            # (2) members / memberships of the filtered view: exactly its IDs, in its order, with the current incidence
+            acc = "memberships" if key == "nview" else "members"
+            st, r = attempt((lambda: fv.memberships()) if key == "nview" else (lambda: fv.members(dtype=dict)))
+            want = {i: T.tab(k_)[i] for i in exp}
+            if st != "ok" or not isinstance(r, dict) or list(r) != exp or {i: set(v) for i, v in r.items()} != want:
+                ob.fail(f"{vn}.{acc}", "filtered-view-incidence-wrong", f"{acc}() of the view {exp}: {st} {r!r} vs {want}"[:300], key)
+            # (2b) an ID of the network that is NOT in the filtered view: not `in` it, and view[id], stat[id], members(id)
+            # (and the directed single-edge accessors) answer IDNotFound — the view and its stats cover exactly its IDs
+            other = next((i for i in ids if i not in set(exp)), None)
+            if other is not None:
+                probes = [("__getitem__", lambda: fv[other]), (f"{base}.__getitem__", lambda: getattr(fv, base)[other])]
+                if key == "eview":
+                    probes += [(a_, lambda a_=a_: getattr(fv, a_)(other)) for a_ in (("members", "head", "tail", "dimembers") if directed else ("members",))]
+                st, isin = attempt(lambda: other in fv)
+                if st != "ok" or isin is not False:
+                    ob.fail(f"{vn}.__contains__", "id-outside-the-filtered-view-is-in-it", f"{other!r} in view {exp}: {st} {isin}", key)
+                for a_, f in probes:
+                    st, r = attempt(f)
+                    if st != "err:lib":
+                        site_ = "IDStat.__getitem__" if a_.endswith(".__getitem__") else f"{vn}.{a_}"
+                        ob.fail(site_, "id-outside-the-filtered-view-answered", f"view {exp}, {a_}({other!r}): {st} {r!r}"[:300], key)
+            # (3) neighbors asked of a filtered view (uses the bipartite table the new view was handed by from_view)
+            for i in exp[:2]:
+                for s_ in (1, sp["sp"]):
+                    view_ids_obs(ob, f"{vn}.neighbors", "filtered-view-differs-from-definition", lambda: fv.neighbors(i, s_),
+                                 nbrs(T, k_, i, s_), key, as_set=True)
             fs = stats_f(fv, P, directed)
             names = list(fs)
             pd_for = names[step_no % len(names)]          # pandas output of one (rotating) stat per filtered view
@@ -1497,13 +1647,15 @@ def small_scope(n_nodes, max_edges):
     nodes = list(range(n_nodes))[::-1]
     subsets = [list(c) for r in range(0, n_nodes + 1) for c in itertools.combinations(nodes, r)]
     P = {"k": 1, "w": "w", "d": 2, "attr": "color", "missing": None}
+    count = 0
     for k in range(max_edges + 1):
         for combo in itertools.combinations(subsets, k):
             for dup in ((False, True) if combo else (False,)):
                 es = list(combo) + ([combo[0]] if dup else [])
                 ops = [{"op": "add_nodes_from", "items": [{"n": n} for n in nodes], "attr": []}]
                 ops += [{"op": "add_edge", "members_raw": list(ms), "idx": i, "attr": [["w", i]] if i % 2 else []} for i, ms in enumerate(es)]
-                yield {"class": "Hypergraph", "ops": ops, "params": P}
+                count += 1
+                yield {"class": "Hypergraph", "ops": ops, "params": dict(P, rot=count)}
 
 
 def corpus_cases():
@@ -1536,7 +1688,8 @@ def run(ctx):
                 "memberships / head / tail / dimembers / dimemberships / sources / targets / view[id] / ids of the held views. "
                 "Queries on the held views: filtered views and every stat on them, filterby (7 modes + callable + unknown mode; "
                 "by name and by held stat object, one more rotating stat per step), filterby_attr (7 modes), neighbors (s), "
-                "lookup, duplicates, isolates (ignore_singletons), singletons, empty, maximal (strict). Query / edit / same "
+                "lookup, duplicates, isolates (ignore_singletons), singletons, empty, maximal (strict); from_view(view) with the default "
+                "bunch (fresh and held); the 12 other stats in rotation (formats, liveness, restriction). Query / edit / same "
                 "query: the argument variants of one method are called in palindromic order over consecutive steps and in half "
                 "of the histories the query arguments stay fixed for 4 calls, so the last call before an edit and the first "
                 "call after it are the same call on the same persistent object. non-trivial = distinct state (incidence + "
@@ -1563,7 +1716,7 @@ def run(ctx):
     for name in results:
         collect(ctx, results[name])
     unexplained = any(r["dis"] for r in results.values())
-    if (unexplained or not ok) and not any(v["kind"] == "concrete" for v in ctx.violations):
+    if (unexplained or not ok) and not any(v["kind"] == "concrete" for v in unlisted_violations(ctx)):
         # look harder on the implementation alone, biased to the op kinds of the disagreeing histories
         for name, n in plan:
             fam = FAMILIES[name]
@@ -1573,7 +1726,7 @@ def run(ctx):
                 for op in res["histories"][hi][0][: oi + 1]:
                     kinds[op["op"]] = 30
             run_family(ctx, fam, ctx.n(150, 1500), False, shrunk, weights=kinds or None)
-        if not any(v["kind"] == "concrete" for v in ctx.violations):
+        if not any(v["kind"] == "concrete" for v in unlisted_violations(ctx)):
             ctx.violation("model-tie", "unproven", {"broken": ctx.broken, "example": ctx.extra.get("disagreements", [])[:1]},
                           detail="; ".join(ctx.broken)[:500], kind="unproven", broken=ctx.broken)
     elif unexplained:
@@ -1589,8 +1742,13 @@ def run(ctx):
         "numpy/pandas/scipy are oracles: asnumpy/aspandas values are compared when the values are scalars of one type (np.array / pd.Series "
         "coerce mixed lists; a table with list- or dict-valued attribute cells is not compared); aggregates are compared with exact "
         "definitions by the float rule; `mode` may be any most frequent value; `ashist` (numpy binning) is not read",
-        "statistics read: degree family, average_neighbor_degree, attrs, size/order family. Not read: clustering coefficients, "
-        "centralities, local simpliciality stats, node_edge_centrality (other properties' subject)",
+        "statistics whose VALUES are checked: degree family, average_neighbor_degree, attrs, size/order family. Clustering coefficients, "
+        "centralities, local simpliciality stats and the edge stat node_edge_centrality are read for format agreement, view order, "
+        "liveness (held object = fresh object) and restriction to a filtered view only (one per 2nd step, states of <= 8 nodes / 10 "
+        "edges; values are other properties' subject); the three eigenvector centralities (unseeded random start: two evaluations "
+        "differ) on keys and shapes only",
+        "IDView.from_view(view) without a bunch, the constructors NodeView(H, bunch) / EdgeView(H, bunch) / directed, and members / "
+        "memberships / neighbors asked of filtered views are compared with the brute-force definitions (predicate only)",
         "weighted degrees: integer weights are compared with the model; a non-numeric weight makes the stat raise TypeError (checked); "
         "bool/float weights and `weight=''` are outside the model",
         "DiNodeView.isolates has no ignore_singletons, DiEdgeView has no singletons()/maximal(): for the directed class isolates(), empty() and "
@@ -1615,9 +1773,19 @@ def replay(ctx, path):
     j = json.load(open(path))
     case = j.get("case", j)
     fam = FAMILIES[case["class"]]
-    r = first_failure(fam, case["raw_ops"], case["params"], case["step"])
+    # the failure the file records; otherwise any failure that is not a listed known finding
+    want = (j["site"], j["failure_class"]) if "site" in j and "failure_class" in j else None
+    r = first_failure(fam, case["raw_ops"], case["params"], case["step"], want) if want else None
     if r is None:
-        print(f"C06 replay {path}: predicate holds after every call ({len(case['raw_ops'])} ops)")
+        from ..core import load_known
+        known = {(k["site"], k["failure_class"]) for k in load_known() if k["property"] == "C06"}
+        for i, rec in enumerate(run_history(fam, copy.deepcopy(case["raw_ops"]), case["params"], fixed_sp=case["step"])):
+            f = next((f for f in (rec["obs"].fails if rec["obs"] is not None else []) if (f[0], f[1]) not in known), None)
+            if f is not None:
+                r = (i, f)
+                break
+    if r is None:
+        print(f"C06 replay {path}: predicate holds after every call ({len(case['raw_ops'])} ops; known findings aside)")
         return 0
     i, f = r
     print(f"C06 replay {path}: VIOLATION after op {i} ({case['raw_ops'][i]['op']}) site={f[0]} class={f[1]}: {f[2]}")
